@@ -27,6 +27,8 @@ RULE = ("addr: structured generator (atoms, quoted strings, quoted pairs, routes
         "(generated IPv4/IPv6 bodies: octet ranges, leading zeros, field counts, group lengths, ellipsis positions, embedded IPv4, zones, mutations). "
         "pop3 / live: RCPT+DATA on a real SMTP session (net.Pipe), then lookup by the address through Manager.MailboxForAddress, every REST v1 and web-UI "
         "handler on the real router (list, show, source, mark-seen, delete, purge) and a real POP3 session (USER <address>). "
+        "hist: histories of naming calls (NewRecipient, ExtractMailbox, MailboxForAddress, SMTP delivery, REST list, POP3 USER) executed in order in one process "
+        "on one goroutine with GOMAXPROCS(1), refused strings immediately followed by accepted ones; every answer must be that of the call alone. "
         "lower: strings.ToLower on ASCII-only strings (the go_tolower model). valid: ValidateDomainPart on arbitrary byte strings (multi-byte runes, invalid UTF-8). "
         "addr additionally: every ordinary address (Model/AddrSpec.v) must be accepted under the documented name. "
         "distinct = distinct input line; non-trivial = accepted by NewRecipient in at least one mode (addr, pop3, live), "
@@ -74,6 +76,8 @@ def nontrivial(kind, ins, outs):
         return bool(outs) and outs[0] == "1"
     if kind == "live":
         return len(outs) >= 2 and outs[1] == "250"
+    if kind == "hist":
+        return any(o.startswith("S") or o.startswith("250") for o in outs[1:])
     if kind == "lower":
         return bool(ins) and ins[0] != "-"
     if kind == "valid":
@@ -87,9 +91,36 @@ def match_known(case_line, reason):
     return None
 
 
+def _byte_cuts(x):
+    n = len(x) // 2
+    cuts = []
+    if n > 8:
+        cuts += [(0, n // 2), (n // 2, n)]
+    cuts += [(c, c + 1) for c in range(n)]
+    for a, b in cuts:
+        yield x[:2 * a] + x[2 * b:]
+
+
 def shrink_candidates(inp):
     parts = inp.split(" ")
     kind, f = parts[0], parts[1:]
+    if kind == "hist":
+        mode, els = f[0], f[1:]
+        # fewer calls first (the failing input is the shortest history that still shows the dependence) ...
+        if len(els) > 1:
+            for k in range(len(els)):
+                yield " ".join([kind, mode] + els[:k] + els[k + 1:])
+        # ... then simpler operations and shorter strings
+        for k, el in enumerate(els):
+            op, _, hx = el.partition(":")
+            if op in ("d", "r", "m", "n") :
+                yield " ".join([kind, mode] + els[:k] + ["x:" + hx] + els[k + 1:])
+        for k, el in enumerate(els):
+            op, _, hx = el.partition(":")
+            if hx and hx != "-":
+                for y in _byte_cuts(hx):
+                    yield " ".join([kind, mode] + els[:k] + [op + ":" + (y or "-")] + els[k + 1:])
+        return
     for i, x in enumerate(f):
         if x == "-" or len(x) < 2 or (kind == "live" and i == 0):
             continue
